@@ -24,7 +24,11 @@ def gen_cases(rng, tier):
         if rng.random() < 0.2 and srcs:
             srcs.insert(rng.randrange(len(srcs)), {"arg": rng.choice(["toolongname.bas", "x.extension", "verylongname12.dat"]), "content": {"pat": "41", "len": 10}})
         cases.append({"is_fd": rng.random() < 0.5, "verbose": rng.random() < 0.3, "sources": srcs})
-    return cases, {"random": n}
+    # names that spell the keys of the documented rules, without any extension: they are 'other files'
+    keys = [{"arg": a, "content": {"pat": "41", "len": 10 + k}} for k, a in enumerate(["bas", "BIN", "txt", "Bat", "auto", "bas.bas", "auto.bat", "AUTO.txt", "bat.auto", "bin.", "x.bas,a"])]
+    for is_fd in (True, False):
+        cases.append({"is_fd": is_fd, "verbose": is_fd, "sources": keys})
+    return cases, {"random": n, "rule keys as whole names": 2}
 
 
 def run_case(case, ctx):
